@@ -347,6 +347,19 @@ def CState.trigger (σ : CState) (key : String) (e : Entry) : CState :=
              pending := σ.pending ++ [⟨e.id, key, e.snap, σ.now⟩] }
   else σ
 
+/-- is the entry a queued refresh points to still what the cache holds under its key? -/
+def taskFresh (C : List (String × Entry)) (t : Task) : Bool :=
+  match alLookup t.key C with
+  | some e => decide (e.snap = t.snap)
+  | none => false
+
+/-- `task.cache.MarkBpfUpdated(task.now)`: touches the task's own object, which is visible only while that
+object is still the cached one. -/
+def markUpdated (C : List (String × Entry)) (t : Task) : List (String × Entry) :=
+  match alLookup t.key C with
+  | some e => if e.id = t.id then alInsert t.key { e with lastSync := t.now } C else C
+  | none => C
+
 def cstep (σ : CState) : COp → CState
   | .put key ttl fixedTtl bitmap ans =>
     if key = "" then σ else
@@ -371,14 +384,8 @@ def cstep (σ : CState) : COp → CState
     match σ.pending with
     | [] => σ
     | t :: rest =>
-      let fresh := match alLookup t.key σ.cache with
-        | some e => decide (e.snap = t.snap)
-        | none => false
-      let cache' := match alLookup t.key σ.cache with
-        | some e => if e.id = t.id then alInsert t.key { e with lastSync := t.now } σ.cache else σ.cache
-        | none => σ.cache
-      { σ with pending := rest, cache := cache', tk := σ.tk.sync t.key t.snap,
-               staleApplied := σ.staleApplied || !fresh }
+      { σ with pending := rest, cache := markUpdated σ.cache t, tk := σ.tk.sync t.key t.snap,
+               staleApplied := σ.staleApplied || !taskFresh σ.cache t }
   | .touch key =>
     match alLookup key σ.cache with
     | none => σ
@@ -426,6 +433,6 @@ def specOr (cache : List (String × Entry)) (ip : Ip) : Bitmap :=
 /-- the table equals the specification on every address that occurs anywhere, and stores no zero value. -/
 def mirrorOk (cache : List (String × Entry)) (K : Kernel) : Bool :=
   let addrs := K.map (·.1) ++ cache.flatMap (fun p => ansIps p.2.ans)
-  addrs.all (fun ip => kernelVal K ip == specOr cache ip) && K.all (fun p => p.2 != 0)
+  addrs.all (fun ip => kernelVal K ip == specOr cache ip) && K.all (fun p => kernelVal K p.1 != 0)
 
 end DaeVerif.C10
